@@ -16,7 +16,9 @@
 use strum::IntoEnumIterator;
 
 use crate::api_impl::owner::{check_ttl, post_tx};
+use crate::grin_core::core::transaction::{self, Transaction};
 use crate::grin_core::core::FeeFields;
+use crate::grin_core::global;
 use crate::grin_keychain::Keychain;
 use crate::grin_util::secp::key::SecretKey;
 use crate::internal::{selection, tx, updater};
@@ -208,6 +210,18 @@ where
 				true,
 				false,
 			)?;
+
+			// Nothing has been reserved yet: refuse now if the transaction (these inputs, the
+			// change outputs plus the recipient's output, one kernel) could not be valid anyway,
+			// rather than after the inputs have been locked
+			if Transaction::weight_by_iok(
+				temp_context.input_ids.len() as u64,
+				temp_context.output_ids.len() as u64 + 1,
+				1,
+			) > global::max_tx_weight()
+			{
+				return Err(Error::Transaction(transaction::Error::TooHeavy));
+			}
 
 			// Add inputs and outputs to original context
 			context.input_ids = temp_context.input_ids;
